@@ -147,6 +147,24 @@ func (e *eng) next(it *search.GraphIterator, who string) string {
 	return gutil.G6(mg)
 }
 
+// current returns the graph6 of it.Value() without advancing (only meaningful right after a
+// Next that returned true).
+func (e *eng) current(it *search.GraphIterator, who string) string {
+	var wf string
+	var mg *model.G
+	e.r.Must("Value("+who+")", budget, func() {
+		g := it.Value()
+		wf = gutil.DenseWellFormed(g, e.c.n)
+		if wf == "" {
+			mg = gutil.ToModel(g)
+		}
+	})
+	if wf != "" {
+		e.r.Fail("original-disturbed", who, "%s: Value() of %s is malformed after Save: %s", e.c, who, wf)
+	}
+	return gutil.G6(mg)
+}
+
 func (e *eng) reference() {
 	it := e.newIter()
 	for {
@@ -237,6 +255,12 @@ func (e *eng) everyCrashPoint() {
 		mode := k % len(readerNames)
 		r.Logf("crash point k=%d: Save after %d Next calls, restart through a %s reader", k, k, readerNames[mode])
 		data := e.save(master, fmt.Sprintf("original after %d Next", k))
+		if k >= 1 && k <= L {
+			// saving must not disturb the original: its current value is still the graph it yielded last
+			if cur := e.current(master, "original"); cur != e.R[k-1] {
+				r.Fail("original-disturbed", "Value() after Save", "%s: after Save at position %d the original's Value() is %s, the graph it yielded last is %s", e.c, k, cur, e.R[k-1])
+			}
+		}
 		r.Fault("crash-restart")
 		pos := k
 		if pos > L {
@@ -273,9 +297,10 @@ func (e *eng) everyCrashPoint() {
 // ---- random: chains, forks, several workers -----------------------------------------
 
 type worker struct {
-	it   *search.GraphIterator
-	pos  int // index in R of the next graph; L+1 once false has been seen
-	name string
+	it    *search.GraphIterator
+	pos   int // index in R of the next graph; L+1 once false has been seen
+	name  string
+	fresh bool // the last operation on it was a Next that returned true (so Value() is defined)
 }
 
 type ckpt struct {
@@ -307,6 +332,7 @@ func (e *eng) chain() {
 		if w.pos <= L {
 			w.pos++
 		}
+		w.fresh = s != ""
 	}
 	for op := 0; op < nops; op++ {
 		w := ws[t.Draw(len(ws))]
@@ -326,6 +352,11 @@ func (e *eng) chain() {
 				p = L
 			}
 			disk = append(disk, ckpt{e.save(w.it, w.name), p, fmt.Sprintf("ckpt%d(%s@%d)", len(disk), w.name, p)})
+			if w.fresh && w.pos >= 1 && w.pos <= L {
+				if cur := e.current(w.it, w.name); cur != e.R[w.pos-1] {
+					r.Fail("original-disturbed", "Value() after Save", "%s: after Save at position %d the Value() of %s is %s, the graph it yielded last is %s", e.c, w.pos, w.name, cur, e.R[w.pos-1])
+				}
+			}
 			r.Logf("%s: Save at position %d -> %s (%d bytes)", w.name, p, disk[len(disk)-1].name, len(disk[len(disk)-1].data))
 			if t.Chance(1, 4) {
 				d2 := e.save(w.it, w.name)
@@ -343,6 +374,7 @@ func (e *eng) chain() {
 			r.Fault("crash-restart")
 			w.it = e.load(c.data, mode, c.name)
 			w.pos = c.pos
+			w.fresh = false
 			restores++
 		case 3: // fork: clone and keep the original
 			if len(ws) >= 4 {
@@ -370,6 +402,7 @@ func (e *eng) chain() {
 			r.Fault("restart-from-older-checkpoint")
 			w.it = e.load(c.data, mode, c.name)
 			w.pos = c.pos
+			w.fresh = false
 			restores++
 		case 5: // drain one worker completely, keep it (it must stay exhausted)
 			r.Logf("%s: drained from position %d", w.name, w.pos)
